@@ -40,7 +40,8 @@ def PSecs (h : Hooks) (fuel : Nat) : Prop :=
 def PFile (h : Hooks) (fuel : Nat) : Prop :=
   ∀ buf st f st', GoLen buf → parseFile h fuel buf st = .ok (some f, st') → FileF h f buf
 def PFiles (h : Hooks) (fuel : Nat) : Prop :=
-  ∀ data off lh length st fs free st', GoLen data → length = data.length → off < 9223372036854775808 →
+  ∀ data off lh length st fs free st', GoLen data → length = data.length → lh + 24 = length →
+    off < 9223372036854775808 →
     parseFiles h fuel data off lh length st = .ok (fs, free, st') → FilesAt h fs data off free
 def PFv (h : Hooks) (fuel : Nat) : Prop :=
   ∀ data fvo rsz st v st', GoLen data → parseFv h fuel data fvo rsz st = .ok (v, st') →
@@ -389,6 +390,75 @@ theorem fileHeader_ok (buf : Bytes) (i : FileInfo) (hfh : fileHeader buf = .ok (
           simp only [hf, if_false, and_self, and_true]
           omega
 
+namespace FaithfulAux
+/-- an erased header is what `fileHeader` answers `none` on -/
+theorem fileHeader_none (buf : Bytes) (hfh : fileHeader buf = .ok none) : FreeHeader buf := by
+  unfold fileHeader at hfh
+  split at hfh
+  · cases hfh
+  · rename_i h24
+    simp only [] at hfh
+    split at hfh
+    · cases hfh
+    · rename_i hhr
+      unfold FreeHeader
+      refine ⟨by omega, ?_⟩
+      split at hhr
+      · rename_i hf
+        refine ⟨hf, ?_⟩
+        split at hhr
+        · rename_i h32
+          rw [if_pos h32]
+          split at hhr
+          · assumption
+          · cases hhr
+        · rename_i h32
+          rw [if_neg h32]
+          split at hhr
+          · assumption
+          · cases hhr
+      · cases hhr
+    · rename_i j hhr
+      split at hfh <;> cases hfh
+
+theorem parseFile_none (h : Hooks) (fuel : Nat) (buf : Bytes) (st st' : St)
+    (hp : parseFile h fuel buf st = .ok (none, st')) : fileHeader buf = .ok none := by
+  cases fuel with
+  | zero => rw [parseFile] at hp; cases hp
+  | succ fuel =>
+    rw [parseFile] at hp
+    split at hp
+    · cases hp
+    · assumption
+    · simp only [] at hp
+      split at hp
+      · cases hp
+      · split at hp
+        · cases hp
+        · split at hp <;> cases hp
+
+theorem nvFileOk_intro (h : Hooks) (i : FileInfo) (fbuf : Bytes) (nvs : Option NvStore)
+    (hnv : (if i.type = 1 ∧ i.guid = guidNVAR then
+              if i.dataOffset ≥ fbuf.length then Except.error Err.err else Except.ok (h.nvarParse (fbuf.drop i.dataOffset))
+            else Except.ok none) = Except.ok nvs) :
+    NvFileOk h { i with nvar := nvs } fbuf := by
+  unfold NvFileOk
+  simp only []
+  split at hnv
+  · rename_i hc
+    rw [if_pos hc]
+    split at hnv
+    · cases hnv
+    · rename_i hlt
+      cases hnv
+      exact ⟨by omega, rfl⟩
+  · rename_i hc
+    rw [if_neg hc]
+    cases hnv; rfl
+
+end FaithfulAux
+open FaithfulAux
+
 theorem file_step (h : Hooks) (fuel : Nat) (hSs : PSecs h fuel) : PFile h (fuel + 1) := by
   intro buf st f st' hlen hp
   rw [parseFile] at hp
@@ -402,11 +472,12 @@ theorem file_step (h : Hooks) (fuel : Nat) (hSs : PSecs h fuel) : PFile h (fuel 
     split at hp
     · cases hp
     · rename_i nvs hnv
+      have hnvok := nvFileOk_intro h i (buf.take i.extSize) nvs hnv
       split at hp
       · rename_i hsup
         cases hp
         unfold FileF
-        refine ⟨fileHeaderOk_congr i _ buf hho rfl rfl rfl rfl rfl rfl rfl rfl rfl, hle', rfl, ?_⟩
+        refine ⟨fileHeaderOk_congr i _ buf hho rfl rfl rfl rfl rfl rfl rfl rfl rfl, hle', rfl, hnvok, ?_⟩
         have hsup' : ¬ (supportedFile i.type = true) := hsup
         simp only []
         rw [if_neg hsup']
@@ -417,7 +488,7 @@ theorem file_step (h : Hooks) (fuel : Nat) (hSs : PSecs h fuel) : PFile h (fuel 
         · rename_i ss st1 hps
           cases hp
           unfold FileF
-          refine ⟨fileHeaderOk_congr i _ buf hho rfl rfl rfl rfl rfl rfl rfl rfl rfl, hle', rfl, ?_⟩
+          refine ⟨fileHeaderOk_congr i _ buf hho rfl rfl rfl rfl rfl rfl rfl rfl rfl, hle', rfl, hnvok, ?_⟩
           have hsup' : supportedFile i.type = true := by
             have : ¬ ¬ (supportedFile i.type = true) := hsup
             exact Classical.not_not.mp this
@@ -431,7 +502,7 @@ theorem FileF.ext_le {h : Hooks} {f : File} {ctx : Bytes} (hf : FileF h f ctx) :
   | mk i buf secs => unfold FileF at hf; exact hf.2.1
 
 theorem files_step (h : Hooks) (fuel : Nat) (hF : PFile h fuel) (hFs : PFiles h fuel) : PFiles h (fuel + 1) := by
-  intro data off lh length st fs free st' hlen hlength hoff hp
+  intro data off lh length st fs free st' hlen hlength hlh hoff hp
   rw [parseFiles] at hp
   have hg : data.length < 9223372036854775808 := hlen
   split at hp
@@ -443,9 +514,11 @@ theorem files_step (h : Hooks) (fuel : Nat) (hF : PFile h fuel) (hFs : PFiles h 
     · rename_i hin
       split at hp
       · cases hp
-      · cases hp
+      · rename_i st1 hpf
+        cases hp
         simp only [FilesAt]
-        right; exact hlength ▸ rfl
+        left
+        exact ⟨by omega, fileHeader_none _ (parseFile_none _ _ _ _ _ hpf), hlength ▸ rfl⟩
       · rename_i f st1 hpf
         split at hp
         · cases hp
@@ -458,9 +531,12 @@ theorem files_step (h : Hooks) (fuel : Nat) (hF : PFile h fuel) (hFs : PFiles h 
             have hle := hff.ext_le
             simp only [List.length_drop] at hle
             simp only [FilesAt]
-            exact ⟨by omega, hff, by omega, hFs _ _ _ _ _ _ _ _ hlen hlength (by omega) hpfs⟩
-  · cases hp
-    simp [FilesAt]
+            exact ⟨by omega, hff, by omega, hFs _ _ _ _ _ _ _ _ hlen hlength hlh (by omega) hpfs⟩
+  · rename_i hge
+    cases hp
+    simp only [FilesAt]
+    unfold WalkEnd
+    exact Or.inr ⟨rfl, by omega⟩
 namespace FaithfulAux
 theorem rd_lt (b : Bytes) (off len : Nat) : rd b off len < 256 ^ len := by
   unfold rd
@@ -621,7 +697,14 @@ theorem fv_step (h : Hooks) (fuel : Nat) (hFs : PFiles h fuel) : PFv h (fuel + 1
                   · exact Or.inr h3
                   · exact absurd ⟨h2, h3⟩ hg
               rw [if_pos this]
+              have hmap : 56 + 8 * (blocks.length + 1) ≤ rd data 32 8 := by
+                have : ¬ (56 + 8 * (blocks.length + 1) > (fvInfoOf data blocks fvo rsz).length) := hbmap
+                rw [hlen0] at this; omega
+              have hL63 : rd data 32 8 < 9223372036854775808 := by
+                have : data.length < 9223372036854775808 := hlen
+                omega
               exact hFs _ _ _ _ _ _ _ _ (hlen.take _) (by simp only [List.length_take]; omega)
+                (by rw [hlen0]; omega)
                 (mkFvInfo_dataOffset_lt data blocks fvo rsz free (by omega) hbl') hpf
 
 /-- **all six layer statements, for every recursion budget** -/
@@ -635,7 +718,7 @@ theorem layers (h : Hooks) (hb : h.BoundedCodecs) : ∀ fuel,
     · intro enc off idx st ns st' _ hp; rw [parseEncap] at hp; cases hp
     · intro fbuf off ext idx st ss st' _ _ hp; rw [parseSections] at hp; cases hp
     · intro buf st f st' _ hp; rw [parseFile] at hp; cases hp
-    · intro data off lh length st fs free st' _ _ _ hp; rw [parseFiles] at hp; cases hp
+    · intro data off lh length st fs free st' _ _ _ _ hp; rw [parseFiles] at hp; cases hp
     · intro data fvo rsz st v st' _ hp; rw [parseFv] at hp; cases hp
   | succ n ih =>
     obtain ⟨hS, hE, hSs, hF, hFs, hV⟩ := ih
@@ -814,10 +897,7 @@ theorem desc_faithful (dbuf : Bytes) (d : Descriptor) (hp : parseDescriptor dbuf
 def RegOk (h : Hooks) (bs : Bytes) (tbl : List FlashRegion) (r : Region) : Prop :=
   ∃ fr, r.fr = some fr ∧ fr.base ≤ fr.limit ∧ fr.limit < 65535 ∧ fr.endOffset ≤ bs.length ∧
     r.buf = slice bs fr.baseOffset (fr.endOffset - fr.baseOffset) ∧ r.rtype ≠ -1 ∧
-    tbl[r.rtype.toNat]? = some fr ∧
-    (match r with
-     | .bios b => BiosF h b b.buf
-     | _ => True)
+    tbl[r.rtype.toNat]? = some fr ∧ RegionInner h r
 
 theorem valid_facts (fr : FlashRegion) (hv : fr.valid = true) (hl : fr.limit < 65536) :
     fr.base ≤ fr.limit ∧ fr.limit < 65535 := by
@@ -878,12 +958,12 @@ theorem parseRegions_ok (h : Hooks) (hb : h.BoundedCodecs) (fuel : Nat) (bs : By
                   obtain ⟨hbf, hfr, hbuf⟩ := bios_faithful h hb fuel _ _ _ _ _ hsl hpb
                   refine ⟨fr, hfr, hbl, hl5, heo, hbuf, by simp [Region.rtype], ?_, ?_⟩
                   · subst hi0; exact hget
-                  · simp only []; rw [hbuf]; exact hbf
+                  · show BiosF h b b.buf; rw [hbuf]; exact hbf
               · rename_i hi0
                 split at hone
                 · rename_i hi1
                   cases hone
-                  refine ⟨fr, rfl, hbl, hl5, heo, rfl, by simp [Region.rtype], ?_, trivial⟩
+                  refine ⟨fr, rfl, hbl, hl5, heo, rfl, by simp [Region.rtype], ?_, Me.me_faithful _⟩
                   subst hi1; exact hget
                 · rename_i hi1
                   cases hone
